@@ -538,11 +538,40 @@ func (b *Bounds) growIdiom(fa *ssa.FieldAddr, n ssa.Value, at ssa.Instruction) b
 			continue
 		}
 		c, ok := EdgeFacts(i, true)
-		if !ok || c.Op != token.LSS {
+		if !ok {
 			continue
 		}
-		lx, isLen := isLenCall(c.X)
-		if !isLen || !samePath(lx) || !sameInt(c.Y, n) {
+		// the test "len(o.f) < n" in any of its spellings: len(f) < n, n > len(f), (n − len(f)) > 0, (n − len(f)) ≥ 1
+		var missing ssa.Value // the difference n − len(o.f) when the test is written on it
+		isDiff := func(v ssa.Value) bool {
+			d, isD := v.(*ssa.BinOp)
+			if !isD || d.Op != token.SUB || !sameInt(d.X, n) {
+				return false
+			}
+			l2, isLen2 := isLenCall(d.Y)
+			return isLen2 && samePath(l2)
+		}
+		isK := func(v ssa.Value, k int64) bool { x, okK := ConstInt(v); return okK && x == k }
+		matched := false
+		switch {
+		case c.Op == token.LSS:
+			if lx, isLen := isLenCall(c.X); isLen && samePath(lx) && sameInt(c.Y, n) {
+				matched = true
+			} else if isK(c.X, 0) && isDiff(c.Y) {
+				matched, missing = true, c.Y
+			}
+		case c.Op == token.GTR:
+			if ly, isLen := isLenCall(c.Y); isLen && samePath(ly) && sameInt(c.X, n) {
+				matched = true
+			} else if isK(c.Y, 0) && isDiff(c.X) {
+				matched, missing = true, c.X
+			}
+		case c.Op == token.GEQ:
+			if isK(c.Y, 1) && isDiff(c.X) {
+				matched, missing = true, c.X
+			}
+		}
+		if !matched {
 			continue
 		}
 		then := i.Block().Succs[0]
@@ -569,11 +598,7 @@ func (b *Bounds) growIdiom(fa *ssa.FieldAddr, n ssa.Value, at ssa.Instruction) b
 			if !ok {
 				continue
 			}
-			d, ok := ms.Len.(*ssa.BinOp)
-			if !ok || d.Op != token.SUB || !sameInt(d.X, n) {
-				continue
-			}
-			if l2, isLen2 := isLenCall(d.Y); isLen2 && samePath(l2) {
+			if (missing != nil && ms.Len == missing) || isDiff(ms.Len) {
 				grown, growStore = true, st
 			}
 		}
